@@ -18,6 +18,8 @@ from __future__ import annotations
 import itertools
 import re
 
+from . import rxoracle
+
 from .core import AnalysisError
 from .objmodel import ClassModel
 from .ordabs import ModelRaise, Obj, Sym
@@ -31,11 +33,11 @@ def program(repo: Repo, where: str) -> ClassModel:
     rels = [r for r in RELS if r in repo.py_files]
     if "src/pest/grammar/optimizer.py" not in rels:
         raise AnalysisError("anchor vanished: src/pest/grammar/optimizer.py")
-    restub = Obj("re", I=re.I, IGNORECASE=re.I, A=re.A, ASCII=re.A, VERSION1=256, V1=256, VERSION0=0, FULLCASE=16384)
+    restub = Obj("re", **rxoracle.FLAGS)
     copystub = Obj("copy")
     cm = ClassModel(repo, rels, where, {"re": restub, "copy": copystub, "ChoiceCase": Sym("ChoiceCase")}, max_steps=400000)
     cm._cache[("re", "compile")] = lambda _s, pat, flags=0: Obj("Pattern", pattern=pat, flags=flags)  # noqa: SLF001
-    cm._cache[("re", "escape")] = lambda _s, x: re.escape(x)  # noqa: SLF001
+    cm._cache[("re", "escape")] = lambda _s, x: rxoracle.escape(x)  # noqa: SLF001
 
     def shallow(_s: Obj, o: Obj) -> Obj:
         c = Obj(o.kinds)
@@ -179,7 +181,7 @@ def check_pipeline(repo: Repo, where: str) -> tuple[int, list[tuple[str, str]]]:
                     else:
                         try:
                             pat = cm.call(se, "build_optimized_pattern")
-                            rx = re.compile(pat)
+                            rx = rxoracle.compile_(pat)
                             for w in ("", " ", " \t ", "\t\tx", "x ", "  x"):
                                 m = rx.match(w)
                                 got_len = m.end() if m else None
@@ -187,7 +189,7 @@ def check_pipeline(repo: Repo, where: str) -> tuple[int, list[tuple[str, str]]]:
                                 if got_len != want_len:
                                     bad.append(("the fused SKIP pattern is not WHITESPACE*", f"{desc}: `{pat}` consumes {got_len} of {w!r}, WHITESPACE* consumes {want_len}"))
                                     break
-                        except (ModelRaise, re.error) as err:
+                        except (ModelRaise, re.error, rxoracle.error) as err:
                             bad.append(("the fused SKIP pattern cannot be built", f"{desc}: {err}"))
     return n, bad
 
